@@ -177,7 +177,8 @@ class CHECK(core.Check):
                   "retry for every rendering and every split (C33_any_rendering_any_split, C33_same_events); the events "
                   "of a stream written as blocks of field lines are those the SSE field rules prescribe — last id, last "
                   "event name, data lines joined by LF, retry — for every rendering and split (C33_block_dispatch, "
-                  "C33_blocks_events, C33_content_any_rendering_any_split). On the model of the unrepaired parseLine "
+                  "C33_blocks_events, C33_content_any_rendering_any_split); the structural line search used in the model "
+                  "equals the code's raw.find-based search for every buffer (C33_scan_is_find). On the model of the unrepaired parseLine "
                   "both invariances fail (C33_unrepaired_split_counterexample, C33_unrepaired_eol_counterexample).")
     LEVEL_NOTE = ("Trusted: Lean kernel; axioms propext, Classical.choice, Quot.sound; the hand transcription of "
                   "parseLine/parseEvents validated by the correspondence runs; CPython's find, UTF-8 decoder, int(); "
